@@ -137,15 +137,32 @@ func (ab *AccessBarrier) doCleanup() {
 	for iter.SeekFirst(); iter.Valid(); iter.Next() {
 		node := iter.GetNode()
 		bs := (*BarrierSession)(node.Item())
-		if bs.seqno != ab.freeSeqno+1 {
+		if bs.seqno != atomic.LoadUint64(&ab.freeSeqno)+1 {
 			return
 		}
 
-		ab.freeSeqno++
+		atomic.AddUint64(&ab.freeSeqno, 1)
 		ab.callb(bs.objectRef)
 		ab.freeq.DeleteNode(node, CompareBS, buf2, &ab.freeq.Stats)
 		ab.numFreed++
 	}
+}
+
+// hasReadySession returns true if the oldest queued session is the next one
+// to be destructed
+func (ab *AccessBarrier) hasReadySession() bool {
+	buf := ab.freeq.MakeBuf()
+	defer ab.freeq.FreeBuf(buf)
+
+	iter := ab.freeq.NewIterator(CompareBS, buf)
+	defer iter.Close()
+
+	iter.SeekFirst()
+	if iter.Valid() {
+		bs := (*BarrierSession)(iter.Get())
+		return bs.seqno == atomic.LoadUint64(&ab.freeSeqno)+1
+	}
+	return false
 }
 
 // Acquire marks enter of an accessor in the skiplist
@@ -179,9 +196,16 @@ func (ab *AccessBarrier) Release(bs *BarrierSession) {
 				if !ab.freeq.Insert(unsafe.Pointer(bs), CompareBS, buf, &ab.freeq.Stats) {
 					panic("unable to insert barrier session into free list")
 				}
-				if atomic.CompareAndSwapInt32(&ab.isDestructorRunning, 0, 1) {
+				// A session queued by another goroutine after the running
+				// destructor finished its scan, but before it dropped the
+				// flag, would stay pending. Whoever drops the flag looks at
+				// the queue again.
+				for atomic.CompareAndSwapInt32(&ab.isDestructorRunning, 0, 1) {
 					ab.doCleanup()
 					atomic.CompareAndSwapInt32(&ab.isDestructorRunning, 1, 0)
+					if !ab.hasReadySession() {
+						break
+					}
 				}
 			}
 		} else if liveCount < 0 || liveCount == barrierFlushOffset-1 {
